@@ -408,8 +408,10 @@ let handle_printf words =
      | Printf.Ok out -> "ok " ^ show_cps out
      | Printf.Err -> "err")
   | _ -> "badcase"
+let str_of_codes l = String.concat "" (Stdlib.List.map (fun c -> String.make 1 (Char.chr (int_of_nat c))) l)
 let handle_pv words =
   match words with
+  | ["num"; base; n] -> str_of_codes (PrintfValue.render_num (big_n base) (big_n n))
   | [path; depth] ->
     let p = bytes_of_hex path in
     let d = nat_of_int (int_of_string depth) in
